@@ -19,6 +19,7 @@ mod ops11;
 mod ops12;
 mod ops13;
 mod ops14;
+mod ops15;
 
 fn main() {
     std::panic::set_hook(Box::new(|_| {}));
